@@ -240,7 +240,8 @@ theorem exec_loadItems (K : PCtx) (wf : K.WF) (σ : X.St) : ∀ (args : List AEx
 
 theorem genCallActuals_facts (ctx : Xcmp.Ctx) : ∀ (args : List AExpr) (gs : GS) (code : Code) (gs' : GS),
     genCallActuals ctx args gs = .ok (code, gs') →
-    gs'.offset = gs.offset + countCalls args ∧ gs.size ≤ gs'.size ∧ (∀ e ∈ gs.constMap, e ∈ gs'.constMap) := by
+    gs'.offset = gs.offset + countCalls args ∧ gs.size ≤ gs'.size ∧ (∀ e ∈ gs.constMap, e ∈ gs'.constMap) ∧
+    (gs.offset ≤ gs.size → gs'.offset ≤ gs'.size) := by
   intro args
   induction args with
   | nil =>
@@ -248,16 +249,16 @@ theorem genCallActuals_facts (ctx : Xcmp.Ctx) : ∀ (args : List AExpr) (gs : GS
     rw [genCallActuals_nil] at h
     simp only [Except.ok.injEq, Prod.mk.injEq] at h
     rw [← h.2]
-    exact ⟨by simp [countCalls], Nat.le_refl _, fun _ h => h⟩
+    exact ⟨by simp [countCalls], Nat.le_refl _, fun _ h => h, fun h => h⟩
   | cons a rest ih =>
     intro gs code gs' h
     rcases genCallActuals_cons_inv _ _ _ _ _ _ h with ⟨hcc, c, gs1, cs, hg1, hg2, _⟩ | ⟨hcc, hg2⟩
     · obtain ⟨e1o, e1s, _, e1c⟩ := genExpr_eff _ _ _ _ _ _ hg1
-      obtain ⟨h1, h2, h3⟩ := ih _ _ _ hg2
-      simp only at h1 h2 h3
-      refine ⟨by simp only [countCalls, hcc, if_true]; omega, by omega, fun x hx => h3 x (e1c x hx)⟩
-    · obtain ⟨h1, h2, h3⟩ := ih _ _ _ hg2
-      exact ⟨by simp only [countCalls, hcc, Bool.false_eq_true, if_false, Nat.zero_add]; exact h1, h2, h3⟩
+      obtain ⟨h1, h2, h3, h4⟩ := ih _ _ _ hg2
+      simp only at h1 h2 h3 h4
+      refine ⟨by simp only [countCalls, hcc, if_true]; omega, by omega, fun x hx => h3 x (e1c x hx), fun _ => h4 (by omega)⟩
+    · obtain ⟨h1, h2, h3, h4⟩ := ih _ _ _ hg2
+      exact ⟨by simp only [countCalls, hcc, Bool.false_eq_true, if_false, Nat.zero_add]; exact h1, h2, h3, h4⟩
 
 /-- **`genCallActuals`**: the actuals with calls are evaluated in order, each value is parked in a
     temporary. -/
@@ -297,7 +298,7 @@ theorem exec_saveItems (K : PCtx) (wf : K.WF) (σ : X.St) : ∀ (args : List AEx
         rw [← hgs2] at hg2
         have hA := hhead hcc
         -- frame arithmetic needs the effect of the rest: obtained from the induction hypothesis below
-        obtain ⟨_, f2s, f2c⟩ := genCallActuals_facts K.ctx rest gs2 cs gs' hg2
+        obtain ⟨_, f2s, f2c, _⟩ := genCallActuals_facts K.ctx rest gs2 cs gs' hg2
         have hoffS : gs1.offset + 1 ≤ K.S ∧ gs1.size ≤ K.S := by
           rw [hgs2] at f2s
           simp only at f2s
